@@ -115,6 +115,32 @@ class Ctx:
         self._driver = out
         return out
 
+    def crashed_in_library(self, family, stderr, rc):
+        """A driver that dies of a Go panic / fatal error raised inside the library (first goroutine of the crash report: the
+        innermost frame that is neither runtime nor standard library belongs to nhooyr.io/websocket) is behaviour of the real
+        code, not infrastructure trouble: it becomes the observation 'library-crashed'.  Anything else stays exit 2."""
+        m = re.search(r"^(panic: |fatal error: |unexpected fault address)", stderr, re.M)
+        if not m:
+            return None
+        blk = stderr[m.start():].split("\n\n")
+        first = "\n\n".join(blk[:2]) if len(blk) > 1 else blk[0]
+        frames = [l for l in first.splitlines() if l and not l.startswith(("\t", " ", "panic", "fatal", "unexpected", "goroutine", "[signal", "created by"))]
+        own = None
+        for f in frames:
+            fn = f.split("(")[0]
+            if fn.startswith(("runtime.", "runtime/", "panic(", "sync.", "sync/", "bufio.", "io.", "bytes.", "compress/", "encoding/", "strings.", "net.", "net/", "context.", "time.", "internal/", "reflect.", "errors.", "fmt.", "syscall.", "os.", "unicode/", "math/", "sort.", "strconv.")):
+                continue
+            own = fn
+            break
+        if own and own.startswith("nhooyr.io/websocket"):
+            keep = os.path.join(OUTDIR, "replays", self.pid)
+            os.makedirs(keep, exist_ok=True)
+            dst = os.path.join(keep, "crash-%s.txt" % family)
+            open(dst, "w").write(stderr[m.start():m.start() + 20000])
+            return {"sig": "library-crashed", "detail": "driver %s died (exit %d): %s ... in %s" % (family, rc, first.splitlines()[0][:200], own),
+                    "case": {"crash_report": dst}}
+        return None
+
     def drive(self, family, args, timeout=3600, env=None):
         e = dict(os.environ)
         if env:
@@ -122,6 +148,9 @@ class Ctx:
         cmd = ["timeout", str(timeout), self.driver(), family] + [str(a) for a in args]
         p = subprocess.run(cmd, stdout=subprocess.PIPE, stderr=subprocess.PIPE, text=True, env=e, cwd=self.scratch)
         if p.returncode != 0:
+            cr = self.crashed_in_library(family, p.stderr, p.returncode)
+            if cr:
+                return {"family": family, "evaluations": 0, "sigs": {"library-crashed": 1}, "mismatches": [cr]}
             sys.stderr.write(p.stderr[-4000:])
             raise Infra("driver %s exited %d" % (family, p.returncode))
         try:
@@ -130,6 +159,41 @@ class Ctx:
             sys.stderr.write(p.stdout[-2000:] + p.stderr[-2000:])
             raise Infra("driver %s produced no report: %s" % (family, ex))
         return rep
+
+    def drive_sharded(self, family, args, n, timeout=3600):
+        """Run n processes of one driver family, each on its own shard of the rows (-shard k -of n), and merge the reports.
+        Used where a case needs a process to itself (goroutine dumps, fatal errors attributable to a case)."""
+        drv = self.driver()
+        procs = []
+        for k in range(n):
+            cmd = ["timeout", str(timeout), drv, family] + [str(a) for a in args] + ["-shard", str(k), "-of", str(n)]
+            procs.append(subprocess.Popen(cmd, stdout=subprocess.PIPE, stderr=subprocess.PIPE, text=True, cwd=self.scratch))
+        merged = {"family": family, "evaluations": 0, "distinct": 0, "rows": 0, "sigs": {}, "mismatches": [], "samples": [], "extra": {}}
+        for k, p in enumerate(procs):
+            out, err = p.communicate()
+            if p.returncode != 0:
+                cr = self.crashed_in_library(family, err, p.returncode)
+                if cr:
+                    merged["sigs"]["library-crashed"] = merged["sigs"].get("library-crashed", 0) + 1
+                    merged["mismatches"].append(cr)
+                    continue
+                sys.stderr.write(err[-3000:])
+                for q in procs:
+                    if q.poll() is None:
+                        q.kill()
+                raise Infra("driver %s shard %d exited %d" % (family, k, p.returncode))
+            try:
+                rep = json.loads(out.strip().splitlines()[-1])
+            except Exception as ex:
+                raise Infra("driver %s shard %d produced no report: %s" % (family, k, ex))
+            merged["evaluations"] += rep.get("evaluations", 0)
+            merged["rows"] = max(merged["rows"], rep.get("rows", 0))
+            merged["distinct"] = max(merged["distinct"], rep.get("distinct", 0))
+            for sg, c in (rep.get("sigs") or {}).items():
+                merged["sigs"][sg] = merged["sigs"].get(sg, 0) + c
+            merged["mismatches"] += rep.get("mismatches") or []
+            merged["samples"] += (rep.get("samples") or [])[:1]
+        return merged
 
     def absorb(self, rep, only=None, ignore=()):
         """Fold a driver report into the verdict.  only/ignore select signatures that belong to this property."""
@@ -145,7 +209,7 @@ class Ctx:
         for m in rep.get("mismatches") or []:
             first.setdefault(m["sig"], m)
         for sig, n in (rep.get("sigs") or {}).items():
-            if only is not None and sig not in only:
+            if only is not None and sig not in only and sig != "library-crashed":
                 continue
             if sig in ignore:
                 continue
